@@ -262,6 +262,13 @@ def provoked():
                   lambda root: [list(data), DF.conditional(lambda dp: True, DF.Flow(_raise_after_all))], {'ZeroDivisionError'}))
     cases.append(('a package step inside a nested Flow raises after all streams are exhausted, a deleting step follows',
                   lambda root: [list(data), list(data), DF.Flow(_raise_after_all), DF.delete_resource(0)], {'ZeroDivisionError'}))
+    def via_load_tuple(*links):
+        ds = DF.Flow(*links).datastream()
+        return DF.load((ds.dp.descriptor, ds.res_iter))
+    cases.append(('a Flow consumed through load((descriptor, res_iter)) raises after all its streams are exhausted',
+                  lambda root: [via_load_tuple(list(data), _raise_after_all)], {'ZeroDivisionError'}))
+    cases.append(('a Flow consumed through load((descriptor, res_iter)) raises at the last row of its last resource',
+                  lambda root: [list(data), via_load_tuple(list(data), list(data), _raise_at(6))], {'ZeroDivisionError'}))
     cases.append(('the predicate of conditional raises', lambda root: [list(data), DF.conditional(lambda dp: 1 / 0, DF.Flow(DF.add_field('z', 'integer', 1)))], {'ZeroDivisionError'}))
     cases.append(('a finalizer callback raises', lambda root: [list(data), DF.finalizer(lambda: 1 / 0)], {'ZeroDivisionError'}))
     # StopIteration is the one exception class an iterator protocol may mistake for "the stream ended": a step raising it at row k
